@@ -4,6 +4,7 @@ import io
 import json
 import os
 import re
+import shutil
 import sys
 
 import numpy as np
@@ -357,6 +358,7 @@ def main(tier, seed, replay=None):
         for f in failing:
             if f[0] == "case":
                 run.notes.append("model/implementation disagreement on case %d" % f[1])
+    shutil.rmtree(os.path.join(GEN, "cif-%d" % os.getpid()), ignore_errors=True)
     run.settle_broken(found_input)
     return run.finish(
         rule="generated structures: 1-9 atoms, orthorhombic / triclinic (both tilt signs) / arbitrarily rotated cells, fractional coordinates inside, "
